@@ -103,7 +103,9 @@ class PyModules:
             if raw_enum and isinstance(t, Ref) and isinstance(t.target, Enum):
                 # the integer proxy of an enum field: any instance attribute whose name ends with the field name (the prefix
                 # is an implementation detail of the generator and may change)
-                cands = [k for k, v in vars(obj).items() if k != f.name and k.endswith(f.name) and isinstance(v, int)]
+                own = {x.name for x in m.fields}
+                cands = [k for k, v in vars(obj).items() if k not in own and k.endswith("_" + f.name) and isinstance(v, int)]
+                cands.sort(key=len)  # `..._gain` before `..._alt_gain` when both `gain` and `alt_gain` are enum fields
                 out[f.number] = int(vars(obj)[cands[0]]) if cands else int(getattr(obj, f.name))
             else:
                 out[f.number] = self._fetch(getattr(obj, f.name), t, raw_enum)
